@@ -90,7 +90,7 @@ func c21Gen(rt *rapid.T) c21Case {
 	c.Rows = rapid.SampledFrom([]int{5, 50, 400, 1500}).Draw(rt, "rows")
 	c.Pad = rapid.SampledFrom([]int{0, 40, 300}).Draw(rt, "pad")
 	c.SnapEvery = rapid.SampledFrom([]int{0, 20, 60}).Draw(rt, "snapEvery")
-	n := vstat.Scale(300, 1500)
+	n := vstat.Scale(250, 1500)
 	for i := 0; i < n; i++ {
 		c.Transfers = append(c.Transfers, c21Transfer{
 			A: rapid.IntRange(1, c.Rows).Draw(rt, "a"),
